@@ -169,6 +169,11 @@ pub struct HandlerRunner {
     /// C15: the datagram being delivered opens under a known key, but nothing was exchanged with its
     /// source for longer than the session timeout (real clock, 100 ms to spare): Some(idle ms)
     cur_stale_authentic: Option<u64>,
+    /// C03: the WHOAREYOU being delivered echoes the nonce of a handshake this node sent for request RID,
+    /// which is still in flight with exactly that packet: the request must fail now
+    cur_wru_second: Option<u64>,
+    /// C04: how often a datagram carrying request RID of a node went out under one key
+    tx_count: HashMap<(u64, u64, [u8; 16]), u32>,
     hs_delivered: HashMap<(u64, SocketAddr), u64>,
     /// when a node last sealed something fresh for (address, node): its session was certainly alive then
     entry_lo: HashMap<(u64, SocketAddr, u64), std::time::Instant>,
@@ -238,6 +243,8 @@ impl Default for HandlerRunner {
             chal_issued: HashMap::new(),
             key_ctr: HashMap::new(),
             cur_stale_authentic: None,
+            cur_wru_second: None,
+            tx_count: HashMap::new(),
             hs_delivered: HashMap::new(),
             entry_lo: HashMap::new(),
             entry_dirty: HashSet::new(),
@@ -844,6 +851,11 @@ impl HandlerRunner {
             out.push(format!("!MON C03 handshake-without-outstanding-challenge-acted-on node={} reaction={}", idx,
                 events.iter().chain(sends.iter()).next().map(|s| s.chars().take(60).collect::<String>()).unwrap_or_default()));
         }
+        if let Some(r) = self.cur_wru_second.take() {
+            if !events.iter().any(|e| e.starts_with(&format!("fail>{}>", r))) {
+                out.push(format!("!MON C03 second-whoareyou-did-not-fail-the-request node={} rid={}", idx, r));
+            }
+        }
         // C15: a message that arrives after the session timeout has passed since the last exchange is a
         // message from a peer without a session: the handler asks who that is, it does not accept it
         if let Some(idle) = self.cur_stale_authentic.take() {
@@ -901,6 +913,14 @@ impl HandlerRunner {
                     if let Some(pt) = hf::aead_decrypt(&k, p.nonce, &p.message, &aad) {
                         if let Ok(Message::Request(rq)) = Message::decode(&pt) {
                             let rn = self.name_rid(rq.id.as_bytes(), from);
+                            // C04: every transmission counts, byte-identical retransmissions included
+                            {
+                                let c = self.tx_count.entry((from, rn, k)).or_insert(0);
+                                *c += 1;
+                                if *c as u64 == 2 + self.retries {
+                                    out.push(format!("!MON C04 request-on-the-wire-more-than-1-plus-retries-times-under-one-key node={} rid={} times={}", from, rn, *c));
+                                }
+                            }
                             // (it went out somewhere in the stretch being observed: not before its beginning)
                             let now = self.step_start_ms;
                             if let Some(l) = self.ledger.reqs.get_mut(&(from, rn)) {
@@ -1377,6 +1397,7 @@ impl HandlerRunner {
             self.cur_hs_unchallenged = false;
             self.cur_wru_finished = false;
             self.cur_stale_authentic = None;
+            self.cur_wru_second = None;
         }
         match t {
             // application of node X sends a request to node Y
@@ -1662,6 +1683,7 @@ impl HandlerRunner {
                     self.entry_dirty.insert((tidx, src));
                 }
                 self.cur_wru_foreign = false;
+                self.cur_wru_second = None;
                 if let Some(tm) = &term {
                     if tm.starts_with("W~") {
                         // where did the request with the echoed nonce go?
@@ -1690,6 +1712,7 @@ impl HandlerRunner {
                                             // fresh nonce: no request is in flight with the echoed one any more
                                             let tag = format!("|req/{}/", r);
                                             let mine: Vec<(Vec<u8>, NodeId)> = self.wire.iter().filter(|w| w.from_idx == tidx).map(|w| (w.bytes.clone(), w.dst_id)).collect();
+                                            let mut current = false;
                                             for (b2, did) in mine.iter().rev() {
                                                 let di = self.id_idx_ro(did);
                                                 let Some(t3) = self.describe(b2, di, tidx, false) else { continue };
@@ -1698,10 +1721,20 @@ impl HandlerRunner {
                                                         if q.nonce != p.nonce {
                                                             self.cur_wru_finished = true;
                                                             stats.bump("h.whoareyou-echoing-a-superseded-nonce");
+                                                        } else {
+                                                            current = true;
                                                         }
                                                     }
                                                     break;
                                                 }
+                                            }
+                                            // a challenge for the handshake packet the request is in flight with,
+                                            // from where that packet went: a request is answered with one handshake
+                                            // only - this one fails it
+                                            let in_flight = self.ledger.reqs.get(&(tidx, r)).map(|l| !l.done && l.failures == 0).unwrap_or(false);
+                                            if current && in_flight && r < 1_000_000 && t2.starts_with("H~") && went_to.contains(&src) {
+                                                self.cur_wru_second = Some(r);
+                                                stats.bump("h.second-whoareyou-for-a-request-answered-with-a-handshake");
                                             }
                                         }
                                     }
@@ -2235,6 +2268,39 @@ pub fn gen_case(rng: &mut Rng, tier: &str, profile: &str, stats: &mut Stats) -> 
         ops.extend(ops2);
         ops.push("hquiet".into());
         stats.bump("gen.cases.c15");
+        return ops;
+    }
+    if profile == "C04" && rng.chance(1, 12) {
+        // directed case: a multi-packet answer trickles in, one packet per timeout period; the request is
+        // retransmitted in between, but never more often than its retries allow
+        stats.bump("gen.cases.directed-trickling-multi-packet-answer");
+        let r = rng.range(1, 3);
+        let mut ops = vec![format!("hworld 2 {} 400 1000 86400000", r)];
+        let (x, y) = if rng.chance(1, 2) { (1, 2) } else { (2, 1) };
+        let fresh = rng.chance(1, 2);
+        if !fresh {
+            ops.push(format!("hreq {} {} enr 1 1", x, y));
+            for _ in 0..2 { ops.push("hdel next".into()); }
+            ops.push(format!("hwru {} next known", y));
+            for _ in 0..3 { ops.push("hdel next".into()); }
+            ops.push(format!("hresp {} next auto", y));
+            ops.push("hdel next".into());
+            ops.push(format!("hreq {} {} enr 2 3", x, y));
+            ops.push("hdel next".into());
+        } else {
+            // (the request rides on the handshake)
+            ops.push(format!("hreq {} {} enr 2 3", x, y));
+            for _ in 0..2 { ops.push("hdel next".into()); }
+            ops.push(format!("hwru {} next known", y));
+            for _ in 0..3 { ops.push("hdel next".into()); }
+        }
+        for i in 0..rng.range(3, 6) {
+            ops.push(format!("hresp {} {} nodes20", y, if i == 0 { "next" } else { "same" }));
+            ops.push("hdel last".into());
+            ops.push("hadv 401".into());
+            if rng.chance(1, 2) { ops.push("hdel skip".into()); } else { ops.push("hdel next".into()); }
+        }
+        ops.push("hquiet".into());
         return ops;
     }
     if profile == "C04" && rng.chance(1, 12) {
